@@ -47,9 +47,9 @@ Theorem C05_term_push_bounded : forall ops, Forall op_ok ops ->
 Proof. exact term_push_bounded. Qed.
 Print Assumptions C05_term_push_bounded.
 
-(* a push moves the unread keys to the front and puts exactly min(n, room left) new bytes before them *)
+(* a push inserts exactly min(n, room left) new bytes in front of the unread keys; the read position stays *)
 Theorem C05_term_push_clipped : forall t n t', tinv t -> (0 <= n)%Z -> t_step t (TPush n) = Ok t' ->
-  ibuf_pos t' = 0%Z /\ ibuf_cnt t' = ((ibuf_cnt t - ibuf_pos t) + Z.min n (IBUFSZ - (ibuf_cnt t - ibuf_pos t)))%Z /\
+  ibuf_pos t' = ibuf_pos t /\ ibuf_cnt t' = (ibuf_cnt t + Z.min n (IBUFSZ - ibuf_cnt t))%Z /\
   (ibuf_cnt t' <= IBUFSZ)%Z /\ icmd_pos t' = icmd_pos t.
 Proof. exact term_push_clipped. Qed.
 Print Assumptions C05_term_push_clipped.
